@@ -48,6 +48,11 @@ func scenarioC18(c *hlib.RunCtx) *hlib.Violation {
 	if err != nil {
 		panic(err)
 	}
+	// a sibling whose name starts with this bucket's name (production buckets share a prefix)
+	twin, _ := NewFSBucket(ctx, root, bname+"-old")
+	tw, _ := twin.Object("2024-01-08/0.5.json").NewWriter(ctx)
+	tw.Write([]byte("twin"))
+	tw.Close()
 	// a sibling bucket and a file outside: never touched
 	other, _ := NewFSBucket(ctx, root, "other")
 	ow, _ := other.Object("keep.json").NewWriter(ctx)
@@ -106,6 +111,16 @@ func scenarioC18(c *hlib.RunCtx) *hlib.Violation {
 	var ops []string
 	c.Note("nontrivial")
 	for i := 0; i < nops && viol == nil; i++ {
+		if t.Bool(1, 8) {
+			// the service restarts: a new handle over the same directory
+			nb, err := NewFSBucket(ctx, root, bname)
+			if err != nil {
+				fail("reopen-failed", "a second NewFSBucket over an existing bucket directory: %v", err)
+				break
+			}
+			bh = nb
+			s.Probe("bucket-reopened")
+		}
 		switch t.Draw(4) {
 		case 0, 1: // write / overwrite
 			name := genName1()
@@ -115,6 +130,20 @@ func scenarioC18(c *hlib.RunCtx) *hlib.Violation {
 			data := []byte(fmt.Sprintf("content-%d-%d", i, t.Draw(1000)))
 			if t.Bool(1, 5) {
 				data = nil
+			}
+			// an existing object rewritten with less in it, or with much more
+			if len(model) > 0 && t.Bool(1, 4) {
+				keys := sortedKeys(model)
+				name = keys[t.Draw(len(keys))]
+				switch t.Draw(3) {
+				case 0:
+					data = []byte("s")
+				case 1:
+					data = nil
+				case 2:
+					data = []byte(strings.Repeat("longer content ", 50+t.Draw(200)))
+				}
+				s.Probe("explicit-overwrite")
 			}
 			obj := bh.Object(name)
 			// every constructed object name resolves inside the bucket's directory
@@ -278,6 +307,9 @@ func scenarioC18(c *hlib.RunCtx) *hlib.Violation {
 		}
 	}
 	if viol == nil {
+		if b, err := os.ReadFile(filepath.Join(root, bname+"-old", "2024-01-08", "0.5.json")); err != nil || string(b) != "twin" {
+			fail("other-bucket-touched", "an object of the bucket %s-old changed", bname)
+		}
 		if b, err := os.ReadFile(filepath.Join(root, "other", "keep.json")); err != nil || string(b) != "keep" {
 			fail("other-bucket-touched", "an object of another bucket changed")
 		}
